@@ -186,7 +186,8 @@ def run_property(prop, tier, repo, here, targets=None, procs=None):
     produced = {o["key"] for o in obligations}
     for k in sorted(base - produced):
         if any(k.startswith(reg.contracts[q].target + ("@" + reg.contracts[q].variant if getattr(reg.contracts[q], "variant", None) else "") + "/") for q in quals if q in reg.contracts) or k.startswith("lemma::"):
-            if k.split("/")[1].startswith(("loop-", "call-requires", "assert", "no-undeclared", "frame", "loop-frame", "decreases")):
+            kind = k.split("::", 1)[-1].split("/", 1)[-1]
+            if kind.startswith(("loop-", "call-requires", "assert", "no-undeclared", "frame", "loop-frame", "decreases", "comprehension-safe")):
                 continue    # path-shaped obligations may legitimately disappear
             obligations.append({"id": k + "#missing", "key": k, "target": k.split("/")[0], "kind": "missing", "status": "undecided",
                                 "why": "clause produced no obligation on this tree", "in_baseline": True, "backend": None, "time_s": 0})
